@@ -1,0 +1,10 @@
+//go:build verif
+
+package ledger
+
+// Read-only observation hook for the verification harness (build tag "verif").
+
+// VerifTimestamp returns the creation timestamp of the output.
+func (utxo *Utxo) VerifTimestamp() int64 {
+	return utxo.timestamp
+}
